@@ -1,8 +1,215 @@
-//! Implementation runner for the `aottext` area: add the modes of this area to `dispatch`.
+//! Implementation runner for the `aottext` area (C17: descriptive text in completion scripts).
+//!
+//! Modes:
+//!   (esc KIND xTEXT)                 -> the real escape function (hook `__verif_escape` /
+//!                                       `__verif_single_line`) applied to TEXT: `xHEX` | `not-utf8` | `no-such-kind`
+//!   (script SHELL (cmd NAME item*))  -> `(adv xSCRIPT) (inn xSCRIPT)`: the generated script with the
+//!                                       texts of the spec, and with every text replaced by innocuous
+//!                                       text of the same emptiness ("xx" / ""); for zsh also
+//!                                       `(nodq xSCRIPT)`: the texts with every '"' deleted
+//!   (strreplace xPAT xREP xS)       -> `str::replace` of Rust std: `xHEX`
+//!   (lexport MACHINE STATE xINPUT xEXPECTED) -> EXPECTED as text (the python port's answer, compared
+//!                                       by the runner with the extracted Coq lexer's answer)
 use crate::sexp::Sx;
+use clap::builder::PossibleValue;
+use clap::{Arg, ArgAction, Command, ValueHint};
 
 /// Returns `Some(result)` when `head` is a mode of this area.
 pub fn dispatch(head: &str, args: &[Sx]) -> Option<String> {
-    let _ = (head, args);
-    None
+    match head {
+        "esc" => Some(esc(args)),
+        "script" => Some(script(args)),
+        "strreplace" => Some(strreplace(args)),
+        "lexport" => Some(match args.get(3) {
+            Some(e) => String::from_utf8_lossy(&e.bytes()).into_owned(),
+            None => "badcase".into(),
+        }),
+        _ => None,
+    }
+}
+
+fn esc(args: &[Sx]) -> String {
+    if args.len() != 2 {
+        return "badcase".into();
+    }
+    let kind = args[0].sym();
+    let s = match String::from_utf8(args[1].bytes()) {
+        Ok(s) => s,
+        Err(_) => return "not-utf8".into(),
+    };
+    let out = if kind == "nushell_single_line" {
+        Some(clap_complete_nushell::__verif_single_line(&s))
+    } else {
+        clap_complete::aot::__verif_escape(kind, &s)
+    };
+    match out {
+        Some(o) => crate::hex(o.as_bytes()),
+        None => "no-such-kind".into(),
+    }
+}
+
+/// (strreplace xPAT xREP xS) -> Rust's `str::replace` itself (the model's `replace` is compared with it)
+fn strreplace(args: &[Sx]) -> String {
+    if args.len() != 3 {
+        return "badcase".into();
+    }
+    match (String::from_utf8(args[0].bytes()), String::from_utf8(args[1].bytes()), String::from_utf8(args[2].bytes())) {
+        (Ok(p), Ok(r), Ok(s)) => crate::hex(s.replace(p.as_str(), &r).as_bytes()),
+        _ => "not-utf8".into(),
+    }
+}
+
+/// How the texts of a spec are instantiated.
+#[derive(Clone, Copy, PartialEq)]
+enum Texts {
+    /// as given
+    Adversarial,
+    /// innocuous text of the same emptiness
+    Innocuous,
+    /// as given, with every '"' deleted (used to recognise the known zsh tooltip finding exactly)
+    NoDoubleQuote,
+}
+
+fn text(t: &Sx, mode: Texts) -> String {
+    let b = t.bytes();
+    match mode {
+        Texts::Innocuous => {
+            if b.is_empty() { String::new() } else { "xx".to_string() }
+        }
+        Texts::Adversarial => String::from_utf8(b).expect("texts are UTF-8"),
+        Texts::NoDoubleQuote => {
+            let s = String::from_utf8(b).expect("texts are UTF-8");
+            let t = s.replace('"', "");
+            if t.is_empty() && !s.is_empty() { "x".to_string() } else { t }
+        }
+    }
+}
+
+fn hint(name: &str) -> ValueHint {
+    match name {
+        "anypath" => ValueHint::AnyPath,
+        "file" => ValueHint::FilePath,
+        "dir" => ValueHint::DirPath,
+        "exe" => ValueHint::ExecutablePath,
+        "cmdname" => ValueHint::CommandName,
+        "cmdstring" => ValueHint::CommandString,
+        "user" => ValueHint::Username,
+        "host" => ValueHint::Hostname,
+        "url" => ValueHint::Url,
+        "email" => ValueHint::EmailAddress,
+        "other" => ValueHint::Other,
+        _ => ValueHint::Unknown,
+    }
+}
+
+fn build_arg(spec: &Sx, inn: Texts) -> Arg {
+    let items = spec.args();
+    let mut a = Arg::new(items[0].sym().to_string());
+    let mut takes = false;
+    let mut multi = false;
+    let mut count = false;
+    let mut pvs: Vec<PossibleValue> = vec![];
+    for it in &items[1..] {
+        let v = it.args();
+        match it.head() {
+            "short" => a = a.short(v[0].string().chars().next().unwrap()),
+            "long" => a = a.long(v[0].sym().to_string()),
+            "valias" => a = a.visible_alias(v[0].sym().to_string()),
+            "vshort" => a = a.visible_short_alias(v[0].string().chars().next().unwrap()),
+            "help" => a = a.help(text(&v[0], inn)),
+            "long_help" => a = a.long_help(text(&v[0], inn)),
+            "takes" => takes = true,
+            "multi" => {
+                takes = true;
+                multi = true
+            }
+            "count" => count = true,
+            "global" => a = a.global(true),
+            "req" => a = a.required(true),
+            "last" => a = a.last(true),
+            "hide" => a = a.hide(true),
+            "hint" => a = a.value_hint(hint(v[0].sym())),
+            "pv" | "pvhide" => {
+                let mut p = PossibleValue::new(v[0].sym().to_string());
+                if v.len() > 1 {
+                    p = p.help(text(&v[1], inn));
+                }
+                if it.head() == "pvhide" {
+                    p = p.hide(true);
+                }
+                pvs.push(p);
+            }
+            "pos" => {
+                takes = true;
+            }
+            other => panic!("bad arg item {other}"),
+        }
+    }
+    a = if multi {
+        a.action(ArgAction::Append).num_args(1..)
+    } else if takes {
+        a.action(ArgAction::Set)
+    } else if count {
+        a.action(ArgAction::Count)
+    } else {
+        a.action(ArgAction::SetTrue)
+    };
+    if !pvs.is_empty() {
+        a = a.value_parser(pvs);
+    }
+    a
+}
+
+fn build_cmd(spec: &Sx, inn: Texts) -> Command {
+    let items = spec.args();
+    let mut c = Command::new(items[0].sym().to_string());
+    for it in &items[1..] {
+        let v = it.args();
+        match it.head() {
+            "about" => c = c.about(text(&v[0], inn)),
+            "long_about" => c = c.long_about(text(&v[0], inn)),
+            "before_help" => c = c.before_help(text(&v[0], inn)),
+            "after_help" => c = c.after_help(text(&v[0], inn)),
+            "before_long_help" => c = c.before_long_help(text(&v[0], inn)),
+            "after_long_help" => c = c.after_long_help(text(&v[0], inn)),
+            "alias" => c = c.visible_alias(v[0].sym().to_string()),
+            "version" => c = c.version("1.0"),
+            "nohelp" => c = c.disable_help_flag(true).disable_help_subcommand(true),
+            "arg" => c = c.arg(build_arg(it, inn)),
+            "sub" => c = c.subcommand(build_cmd(&v[0], inn)),
+            other => panic!("bad cmd item {other}"),
+        }
+    }
+    c
+}
+
+fn generate(shell: &str, mut cmd: Command) -> Vec<u8> {
+    use clap_complete::aot::{generate, Shell};
+    let mut buf: Vec<u8> = vec![];
+    let name = cmd.get_name().to_string();
+    match shell {
+        "bash" => generate(Shell::Bash, &mut cmd, name, &mut buf),
+        "zsh" => generate(Shell::Zsh, &mut cmd, name, &mut buf),
+        "fish" => generate(Shell::Fish, &mut cmd, name, &mut buf),
+        "powershell" => generate(Shell::PowerShell, &mut cmd, name, &mut buf),
+        "elvish" => generate(Shell::Elvish, &mut cmd, name, &mut buf),
+        "nushell" => generate(clap_complete_nushell::Nushell, &mut cmd, name, &mut buf),
+        other => panic!("bad shell {other}"),
+    }
+    buf
+}
+
+fn script(args: &[Sx]) -> String {
+    if args.len() != 2 || args[1].head() != "cmd" {
+        return "badcase".into();
+    }
+    let shell = args[0].sym();
+    let adv = generate(shell, build_cmd(&args[1], Texts::Adversarial));
+    let inn = generate(shell, build_cmd(&args[1], Texts::Innocuous));
+    let mut out = format!("(adv {}) (inn {})", crate::hex(&adv), crate::hex(&inn));
+    if shell == "zsh" {
+        let alt = generate(shell, build_cmd(&args[1], Texts::NoDoubleQuote));
+        out.push_str(&format!(" (nodq {})", crate::hex(&alt)));
+    }
+    out
 }
